@@ -363,7 +363,7 @@ func firstCall(w *World, f *ssa.Function, spec string) ssa.Instruction {
 // guardCallOn: the atom tests the result of a call to spec whose first argument is exactly the value v
 // (value identity, robust against expression rendering depth).
 func guardCallOn(name, kind, spec string, v ssa.Value) Guard {
-	return Guard{Name: name, Match: func(w *World, f *ssa.Function, a Atom) bool {
+	return Guard{Name: name, Key: fmt.Sprintf("callon:%s:%s:%p", kind, spec, v), Match: func(w *World, f *ssa.Function, a Atom) bool {
 		if a.Kind != kind {
 			return false
 		}
@@ -409,6 +409,38 @@ func init() {
 			}
 		}
 		c.Check(n == 2, fk+" :: lunatic and equivocation branches found", w.pos(f.Pos()), "2 appends", fmt.Sprintf("%d appends", n))
+		// F41: "for the block" is a flag the evidence's author sets, and commit verification (which stops at the
+		// threshold and verifies a slot with the key at its index) does not tie a slot to the address written
+		// into it. A validator is named only behind a valid signature, under the named validator's own key, over
+		// the sign bytes of that very slot of the conflicting commit for the *trusted* chain id; where the
+		// validator is taken from the evidence's own (conflicting) set, whose addresses no hash covers, the
+		// address must also be the key's own.
+		commit := `l\.ConflictingBlock\.SignedHeader\.Commit`
+		n = 0
+		for _, call := range w.callsTo(f, "builtin#append") {
+			n++
+			key := fmt.Sprintf("%s :: name a validator #%d", fk, n)
+			args := callArgs(call)
+			var elems []ssa.Value
+			if len(args) == 2 {
+				elems = sliceElems(args[1])
+			}
+			if !c.Check(len(elems) == 1, key+" :: one validator appended", w.ipos(call), "append(validators, val)", w.callStr(call)) {
+				continue
+			}
+			val := w.expr(elems[0])
+			m := regexp.MustCompile(`^(commonVals|l\.ConflictingBlock\.ValidatorSet)\.GetByAddress\(` + commit + `\.Signatures\[(.*)\]\.ValidatorAddress\)#1$`).FindStringSubmatch(val)
+			if !c.Check(m != nil, key+" :: the validator named is the one found under the slot's address", w.ipos(call), "<set>.GetByAddress(conflicting commit slot address)", "names "+val) {
+				continue
+			}
+			idx := regexp.QuoteMeta(m[2])
+			sigRe := `^true\(` + regexp.QuoteMeta(val) + `\.PubKey\.VerifySignature\(` + commit + `\.VoteSignBytes\(trusted\.Header\.ChainID, (?:int32\()?` + idx + `\)?\), ` + commit + `\.Signatures\[` + idx + `\]\.Signature\)\)$`
+			c.guards(f, call, key, 2, guardRe("the slot carries a valid signature of the named validator's own key for the conflicting block on the trusted chain id", sigRe))
+			if m[1] != "commonVals" {
+				c.guards(f, call, key, 0, guardRe("the address is the address of the key (the evidence's own set: addresses are not covered by the validators hash)",
+					`^true\(bytes\.Equal\(`+regexp.QuoteMeta(val)+`\.PubKey\.Address\(\), `+commit+`\.Signatures\[`+idx+`\]\.ValidatorAddress\)\)$`))
+			}
+		}
 	})
 }
 
